@@ -49,24 +49,26 @@ RULE = (
     'directory symlink to any of the n directories: self, parent, ancestor, root, sibling, descendant, '
     'mutual pairs, chains) x IGNORE variants {none; IGNORE exactly on one link (every link in turn); '
     'IGNORE on one real directory at or above a link holder (every such non-root directory in turn); one '
-    'link dot-named/hidden (every link in turn; n <= 3 quick / <= 4 thorough); for n <= 4 additionally "alias" IGNOREs: every '
-    'path that the unpruned reference walk reaches THROUGH a link (incl. loop-closing ones) and every '
-    'sub-directory one level behind a loop-closing path} x walkers {verify strict, verify keep-going, '
-    'unregistered scan, update from a stale Manifest + save + fresh verify, `gemato create` (variants '
-    'without IGNORE lines only)}.  Family S (n <= 3 quick / <= 4 thorough): the same link sets x IGNORE '
-    '{none, on link, on directory} not covering the start, started at every non-root directory (sub-path '
-    'verify strict / keep-going / update / unregistered).  Family X (n <= 3 quick / <= 4 thorough): a '
-    'REAL second filesystem (mkdtemp on tempfile.gettempdir(), scratch on /dev/shm) reached through a '
-    'symlink "x" held by every directory in turn x kind {directory with a file; directory with a '
-    'sub-directory; empty directory; a regular file; directory holding a link back to the holder (loop through the other '
-    'device); directory whose st_ino is made equal to the holder\'s (virtual, see assumptions)} x in-forest '
-    'link sets with <= 1 link (n = 3 thorough: all link sets) x IGNORE {none, on x, on each directory at '
-    'or above the holder, on the in-forest link} x allow_xdev {on, off} x walkers {the five above + '
-    '`gemato verify [-x]` + `gemato verify -k [-x]` + `gemato update [-x]`}, plus every case started AT the '
-    'foreign directory itself (library sub-path verify / update / scan of ".../x").  A case = (family, shape, link set, IGNORE variant, '
-    'start, foreign placement, allow_xdev, walker); distinct by construction (finish() checks digests == '
-    'executions).  Non-trivial = at least one directory symlink or foreign object is present and the '
-    'reference verdict is definite.')
+    'link dot-named/hidden (every link in turn; n <= 3 quick / <= 4 thorough); for n <= 4 (quick: not for '
+    'n = 4 with all four links present) additionally "alias" IGNOREs: every path that the unpruned '
+    'reference walk reaches THROUGH a link (incl. loop-closing ones) and every sub-directory one level '
+    'behind a loop-closing path} x walkers {verify strict, verify keep-going, unregistered scan, update '
+    'from a stale Manifest + save + fresh verify, `gemato create` (variants without IGNORE lines only)}; '
+    'for n = 5 the variants WITH an IGNORE line run verify strict and update (which runs the unregistered '
+    'scan first) only.  Family S (n <= 3 quick / <= 4 thorough): the same link sets x IGNORE {none, on '
+    'link, on directory} not covering the start, started at every non-root directory (sub-path verify '
+    'strict / keep-going / update / unregistered).  Family X (n <= 3 quick / <= 4 thorough): a REAL '
+    'second filesystem (mkdtemp on tempfile.gettempdir(), scratch on /dev/shm) reached through a symlink '
+    '"x" held by every directory in turn x kind {directory with a file; directory with a sub-directory; '
+    'empty directory; a regular file; directory holding a link back to the holder (loop through the '
+    'other device); directory whose st_ino is made equal to the holder\'s (virtual, see assumptions)} x '
+    'in-forest link sets with <= 1 link (n = 3 thorough: all link sets) x IGNORE {none, on x, on each '
+    'directory at or above the holder, on the in-forest link} x allow_xdev {on, off} x walkers {the five '
+    'above + `gemato verify [-x]` + `gemato verify -k [-x]` + `gemato update [-x]`}, plus every case '
+    'started AT the foreign directory itself (library sub-path verify / update / scan of ".../x").  A case '
+    '= (family, shape, link set, IGNORE variant, start, foreign placement, allow_xdev, walker); distinct '
+    'by construction (finish() checks digests == executions).  Non-trivial = at least one directory '
+    'symlink or foreign object is present and the reference verdict is definite.')
 ASSUMPTIONS = [
     'ref_walk() is an independent restatement of the statement (DFS, identities of the directories on the '
     'current path, pruning of hidden names and IGNOREd paths as reached); it is cross-checked on every '
@@ -107,6 +109,7 @@ FOREIGN_F = b'foreign-file'
 KINDS = ('dir', 'dirsub', 'empty', 'file', 'back', 'ino')
 KIND_DIR = {'dir': 'D', 'dirsub': 'DS', 'empty': 'E', 'file': 'F', 'back': 'B', 'ino': 'D'}
 WALKERS_L = ('verify_strict', 'verify_keepgoing', 'unregistered', 'update', 'create')
+WALKERS_L5 = ('verify_strict', 'update')     # n = 5 with an IGNORE line (cost): one verify + the update chain
 WALKERS_S = ('verify_strict', 'verify_keepgoing', 'unregistered', 'update')
 WALKERS_X = WALKERS_L + ('cli_verify', 'cli_verify_k', 'cli_update')
 WALKERS_XS = ('verify_strict', 'verify_keepgoing', 'unregistered', 'update')    # library only: `gemato verify
@@ -984,7 +987,7 @@ def ignore_variants(model, fam, start=0, tier='thorough'):
     if fam == 'L' and n <= (3 if tier == 'quick' else 4):
         for i in holders:
             out.append((f'hide:{i}', (), (i,)))
-    if fam == 'L' and n <= 4:
+    if fam == 'L' and n <= 4 and not (tier == 'quick' and n == 4 and len(holders) == 4):
         # alias paths: reached through a link; plus one level behind loop-closing paths
         un = ref_walk(model, 0, set(), True)
         real = set(model.rpath) | {model.link_path(i) for i in holders}
@@ -1034,7 +1037,8 @@ def shards(tier, seed):
             for at in range(n):
                 for kind in KINDS:
                     out.append(('X', n, si, (at, kind), len(x_linksets(n, tier)) * 6))
-    out.sort(key=lambda s: -s[4])
+    # tiny trees first (their witnesses are the minimal ones and are retained first), then big shards first
+    out.sort(key=lambda s: (s[1] > 2, -s[4]))
     return [s[:4] for s in out]
 
 
@@ -1079,6 +1083,8 @@ def run_shard(spec, tier, seed, scratch):
                         for axd in ((True, False) if fam == 'X' else (True,)):
                             walkers = WALKERS_XS if start == 'X' else WALKERS_X if fam == 'X' else \
                                 WALKERS_L if fam == 'L' else WALKERS_S
+                            if fam == 'L' and n >= 5 and ilabel != 'none':
+                                walkers = WALKERS_L5
                             for walker in walkers:
                                 if walker == 'create' and ignores:
                                     continue
